@@ -635,9 +635,16 @@ def _register(cls, name):
     return cls
 
 
-def node_class():
-    if "node" in _CLASSES:
-        return _CLASSES["node"]
+def falsy_mode(case):
+    """A replay-stable share of the cases runs on objects that are alive but FALSY (`__bool__` False / `__len__` 0):
+    nothing in the statement depends on an object's truth value (guards against `if not obj:` for `is None`)."""
+    import zlib
+    return ("", "", "bool", "len")[zlib.crc32(case.lstrip("#").strip().encode()) % 4]
+
+
+def node_class(fv=""):
+    if "node" + fv in _CLASSES:
+        return _CLASSES["node" + fv]
     from traits.api import Any, ComparisonMode, Dict, HasTraits, Instance, Int, List, Set, Str
 
     class C12Node(HasTraits):
@@ -651,8 +658,12 @@ def node_class():
         kids = List(Instance(HasTraits))
         byname = Dict(Str, Instance(HasTraits), copy="deep")
         tags = Set(Int)
-    _CLASSES["node"] = _register(C12Node, "C12Node")
-    return C12Node
+    if fv == "bool":
+        C12Node.__bool__ = lambda self: False
+    elif fv == "len":
+        C12Node.__len__ = lambda self: 0
+    _CLASSES["node" + fv] = _register(C12Node, "C12Node" + fv)
+    return _CLASSES["node" + fv]
 
 
 def bare_class():
@@ -756,12 +767,12 @@ def r_sum(o, links, leaf):
     return sum(r_sum(t, links[1:], leaf) for t in r_targets(o, links[0]))
 
 
-def root_class(shape):
-    key = shape.class_key()
+def root_class(shape, fv=""):
+    key = shape.class_key() + (fv,)
     if key in _CLASSES:
         return _CLASSES[key]
     from traits.api import Property, Undefined, cached_property
-    Node = node_class()
+    Node = node_class(fv)
     paths = shape.paths
     if shape.legacy:
         dep = ",".join(".".join([LEG_LINK[x] for x in p.split(".")[:-1]] + [LEG_LEAF[p.split(".")[-1]]])
@@ -909,10 +920,10 @@ def _hit(sig, what, **kw):
 
 
 class Run:
-    def __init__(self, shape, n):
+    def __init__(self, shape, n, fv=""):
         self.shape = shape
-        Node = node_class()
-        self.cls = root_class(shape)
+        Node = node_class(fv)
+        self.cls = root_class(shape, fv)
         self.pool = [self.cls(uid=0)] + [Node(uid=i) for i in range(1, n)]
         self.attached = False
         # the objects assigned for the codes (equal-but-distinct: their identity matters for xi)
@@ -995,7 +1006,8 @@ class Run:
 def run_impl(case):
     shape_text, n, steps = split_case(case)
     shape = Shape(shape_text)
-    R = Run(shape, n)
+    fv = falsy_mode(case)
+    R = Run(shape, n, fv)
     hits = []
     tags = set(["expr:" + shape.expr, "variant:" + shape.variant, "cached:%d" % shape.cached,
                 "getter:" + shape.getter + ("u" if shape.undef else "")])
@@ -1004,6 +1016,7 @@ def run_impl(case):
     if shape.fail_k is not None:
         tags.add("getter-fails")
     tags.add("inherit:" + shape.inherit)
+    tags.add("objects:" + (fv and "falsy-" + fv or "truthy"))
     for f in ("static", "ra", "rv", "rp"):
         if getattr(shape, f):
             tags.add("shape:" + f)
